@@ -13,6 +13,7 @@ AllMethods    == {"solve", "integrate", "expm"}
 AllHReps      == {"dense", "sparse", "tuple", "callable", "linop", "lazy"}
 AllCbs        == {"none", "single", "dict"}
 NoCb          == {"none"}
+QuickCbs      == {"none", "dict"}
 \* the design after the smallest repairs (either repair of expm + density operator is acceptable)
 Repaired      == {"both", "reject"}
 Pinned        == {"left"}
